@@ -427,6 +427,7 @@ func TestC09SharedHintMap(t *testing.T) {
 	nontrivial := 0
 	for i := 0; i < 60; i++ {
 		c := c09SharedMapCase(r, "quick")
+		c09Measure(c)
 		cases = append(cases, c)
 		if c.NonTrivial {
 			nontrivial++
